@@ -37,10 +37,19 @@ def instances(tier, seed):
     out.append(dict(name="del:noterms:N3:K2", family='delete', N=3, terms={}, K=2, cost=1))
     out.append(dict(name="pop:N3:bond1+angle1", family='pop', N=3, terms={'bond': 1, 'angle': 1}, pop=True, cost=6))
     out.append(dict(name="pop-default:N3:bond1", family='pop', N=3, terms={'bond': 1}, pop=True, default=True, cost=1))
+    out.append(dict(name="del-on-copy:bond2:N3:K1", family='delete', N=3, terms={'bond': 2}, K=1, on_copy=True, cost=60))
+    if big:
+        out.append(dict(name="del-on-copy:bond1+angle1:N4:K1", family='delete', N=4, terms={'bond': 1, 'angle': 1}, K=1, on_copy=True, cost=600))
     # large sparsely bonded structures, many scattered deletions (integer-array paths inside numpy's set routines)
     out.append(dict(name="large:N130:del15:scattered", family='large', N=130, dels=list(range(0, 130, 9)), alo=40, ahi=60, chain=[51, 52, 53, 55, 56], cost=20))
     out.append(dict(name="large:N400:del20:scattered:shuffled", family='large', N=400, dels=list(range(0, 400, 20)), alo=195, ahi=215, chain=[201, 202, 203, 204, 205],
                     listing='shuffled', cost=30))
+    # most of the atoms removed in one deletion (a guest-free framework cut down to one cluster): 78 of 96, 318 of 600
+    keep96 = sorted(set([40, 41, 42, 43]) | set(range(0, 96, 7)))
+    out.append(dict(name="large:N96:del78:most-atoms-removed", family='large', N=96, dels=[i for i in range(96) if i not in keep96], alo=36, ahi=46, chain=[40, 41, 42, 43], cost=30))
+    keep600 = sorted(set([300, 301, 302, 303, 304]) | set(range(1, 600, 2)) - set(range(291, 311)))
+    out.append(dict(name="large:N600:del-half:most-atoms-removed", family='large', N=600, dels=[i for i in range(600) if i not in keep600], alo=296, ahi=308,
+                    chain=[300, 301, 302, 303, 304], listing='shuffled', cost=60))
     out.append(dict(name="large:N60:del-tail", family='large', N=60, dels=[3, 57, 58, 59], alo=0, ahi=59, chain=[20, 21, 22, 23], cost=30))
     if big:
         out.append(dict(name="del:angle2:N4:K2", family='delete', N=4, terms={'angle': 2}, K=2, cost=250))
@@ -130,6 +139,23 @@ def body(ctx, p):
         for i in range(K):
             for j in range(i):
                 ctx.assume(dels[i] != dels[j])
+        if p.get('on_copy'):
+            # HISTORY: the structure was copied; atoms are deleted from the COPY; the original must not change, and a later deletion on the
+            # original must still be exact
+            b = a.copy()
+            del b[list(dels)]
+            check_deleted(ctx, b, sp, dels, label='copy: ')
+            now = spec_from_state(a)
+            with core.nosimplify():
+                same = AND(now.N == sp.N, lengths_consistent(a),
+                           *[EQ(x, y) for x, y in zip(now.types + now.charges + now.groups, sp.types + sp.charges + sp.groups)],
+                           *[len(now.terms[k]) == len(sp.terms[k]) for k, _ in KINDS],
+                           *[EQ(x, y) for k, _ in KINDS for (e1, t1), (e2, t2) in zip(now.terms[k], sp.terms[k]) for x, y in list(zip(e1, e2)) + [(t1, t2)]])
+            ctx.require('deleting atoms from a copy leaves the original structure untouched', same)
+            dels = [ctx.int("e0", 0, N - 1)]
+            del a[list(dels)]
+            check_deleted(ctx, a, sp, dels, label='original, afterwards: ')
+            return
         del a[list(dels)]
     K = len(dels)
     check_deleted(ctx, a, sp, dels)
